@@ -48,8 +48,8 @@ def fails(r, plan):
 
 
 def drive_closure(which, count, h):
-    """ops.take (which == 0) / ops.skip applied once to a probe source; h: (-1, _) = subscribe, (j, i) = the source
-    delivers i to subscription j.  Returns the flat encoding of Ops/ClosureSkip.v run_prog and how many deliveries
+    """One operator value ops.take(count) (which == 0) / ops.skip(count); h: (-100, _) = apply it to a new probe
+    source, (-1 - k, _) = subscribe to application k, (j, i) = the source delivers i to subscription j.  Returns the flat encoding of Ops/ClosureSkip.v run_prog and how many deliveries
     were made to a subscription that had already completed."""
     from reactivex import Observable, operators as ops
     from reactivex.disposable import Disposable
@@ -58,11 +58,13 @@ def drive_closure(which, count, h):
     def subscribe(observer, scheduler=None):
         observers.append(observer)
         return Disposable()
-    obs = (ops.take if which == 0 else ops.skip)(count)(Observable(subscribe))
-    enc, nsub, done, fed_after = [], 0, set(), 0
+    op = (ops.take if which == 0 else ops.skip)(count)
+    apps, enc, nsub, done, fed_after = [], [], 0, set(), 0
     for (j, i) in h:
-        if j < 0:
-            j = nsub
+        if j <= -100:
+            apps.append(op(Observable(subscribe)))
+        elif j < 0:
+            obs, j = apps[-1 - j], nsub
             obs.subscribe(on_next=lambda v, j=j: log.append((j, v + 1)),
                           on_completed=lambda j=j: log.append((j, 0)),
                           on_error=lambda e, j=j: log.append((j, -7)))
@@ -84,8 +86,9 @@ def drive_closure(which, count, h):
     return enc, fed_after
 
 
-def resub_failure(enc):
-    """enc: the flat recording of drive_closure.  Returns (j1, j2, k) when subscriptions j1, j2 received the same
+def resub_failure(enc, h):
+    """enc: the flat recording of drive_closure over history h.  Returns (j1, j2, k) when subscriptions j1, j2 OF THE
+    SAME APPLICATION (one observable object; different applications are C44's subject) received the same
     first k+1 inputs and heard different things on the k-th delivery (the operator is causal and its callbacks
     deterministic, so that is a failure of C04 itself); None otherwise."""
     per, p = {}, 0
@@ -96,10 +99,11 @@ def resub_failure(enc):
         j, i, n = enc[p], enc[p + 1], enc[p + 2]
         per.setdefault(j, []).append((i, tuple(enc[p + 3:p + 3 + n])))
         p += 3 + n
+    app_of = [-1 - e[0] for e in h if -100 < e[0] < 0]
     js = sorted(per)
     for a in js:
         for b in js:
-            if a < b:
+            if a < b and app_of[a] == app_of[b]:
                 for k, (x, y) in enumerate(zip(per[a], per[b])):
                     if x[0] != y[0]:
                         break
@@ -110,8 +114,8 @@ def resub_failure(enc):
 
 def closure_progs(chk, enlarge):
     """Correspondence of the two concrete levelled programs (prog_take, prog_skip of Ops/ClosureCompose.v,
-    Ops/ClosureSkip.v) with reactivex.operators.take / skip: one operator value applied once to a probe source
-    that hands every subscription its own observer; a generated history of subscriptions (up to 4, overlapping)
+    Ops/ClosureSkip.v) with reactivex.operators.take / skip: one operator value applied to 1-3 probe
+    sources that hand every subscription its own observer; a generated history of subscriptions (up to 4, overlapping)
     and deliveries; what each subscriber hears during every single delivery, against trace_shared."""
     rng = chk.rng
     n = {"quick": 400, "thorough": 4000}[chk.tier] * (4 if enlarge else 1)
@@ -119,13 +123,16 @@ def closure_progs(chk, enlarge):
     for _ in range(n):
         which = rng.randrange(2)
         count = rng.randint(1, 4) if which == 0 else rng.randint(0, 4)
-        h, nsub, fed = [], 0, {}
+        h, nsub, fed, napps = [(-100, 0)], 0, {}, 1
         aligned = rng.random() < 0.6      # every subscription is fed 0, 1, 2, ...: equal inputs, so the outputs
         dist["aligned" if aligned else "random_values"] = dist.get("aligned" if aligned else "random_values", 0) + 1
         for _step in range(rng.randint(1, 14)):                      # must be equal too (the property itself)
-            if nsub == 0 or (nsub < 4 and rng.random() < 0.25):
+            if napps < 3 and rng.random() < 0.08:
+                napps += 1
+                h.append((-100, 0))
+            elif nsub == 0 or (nsub < 4 and rng.random() < 0.25):
                 nsub += 1
-                h.append((-1, 0))
+                h.append((-1 - rng.randrange(napps), 0))
             else:
                 j = rng.randrange(nsub)
                 fed[j] = fed.get(j, 0) + 1
@@ -135,6 +142,7 @@ def closure_progs(chk, enlarge):
         dist["completed_then_fed"] += fed_after
         dist["take" if which == 0 else "skip"] += 1
         dist["subs"][str(nsub)] = dist["subs"].get(str(nsub), 0) + 1
+        dist.setdefault("applications", {})[str(napps)] = dist.setdefault("applications", {}).get(str(napps), 0) + 1
         dist["events"] += len(h)
         gal.append((f"({which}, {count}, " + lib.glist(h, lambda e: f"({lib.gz(e[0])}, {lib.gz(e[1])})") + ")",
                     lib.glist(enc)))
@@ -144,18 +152,18 @@ def closure_progs(chk, enlarge):
                                    "run_prog", "list_eqb Z.eqb", gal, prelude="Open Scope Z_scope.\n", shard=500)
     chk.cov["evaluations"] += len(gal)
     chk.cov["closure_progs"] = {"cases": len(gal), "distribution": dist,
-                                "rule": "prog_take / prog_skip (Coq, trace_shared) vs ops.take / ops.skip applied once to "
-                                        "a probe source, 1-4 overlapping subscriptions, 1-14 events, deliveries after "
+                                "rule": "prog_take / prog_skip (Coq, trace_shared) vs one ops.take / ops.skip operator value applied to "
+                                        "1-3 probe sources, 1-4 overlapping subscriptions, 1-14 events, deliveries after "
                                         "completion included; per delivery: who heard what"}
     # a failing input of the property itself: two subscriptions of the one observable that were fed the
     # same inputs and heard different things (only that is a violation; a disagreement with the
     # model alone breaks the tie); judged on every case, whether or not the model could be evaluated
-    failing = [m for m in meta if resub_failure(m["heard"]) is not None]
+    failing = [m for m in meta if resub_failure(m["heard"], m["history"]) is not None]
     for m in sorted(failing, key=lambda m: len(m["history"]))[:1]:       # the shortest failing history
-        m = dict(m, differing_subscriptions=resub_failure(m["heard"]), n_failing_histories=len(failing))
+        m = dict(m, differing_subscriptions=resub_failure(m["heard"], m["history"]), n_failing_histories=len(failing))
         chk.violation(f"closure_progs|{m['operator']}",
                       {"family": "closure_progs", **m,
-                       "what": "ops.%s(%d) applied once; per delivery [subscriber, value, #heard, heard...] "
+                       "what": "one ops.%s(%d) operator value; per delivery [subscriber, value, #heard, heard...] "
                                "(0 = on_completed, v+1 = on_next v); the levelled program of the operator "
                                "(re-subscription theorem C04_%s_resubscribe) says otherwise"
                                % (m["operator"], m["count"], m["operator"]),
@@ -297,11 +305,12 @@ def replay(chk, path):
         g = f"({d['which']}, {d['count']}, " + lib.glist(h, lambda e: f"({lib.gz(e[0])}, {lib.gz(e[1])})") + ")"
         out = lib.coq_show("C04", "Base.Prelude Ops.ClosureSkip", f"list_eqb Z.eqb (run_prog {g}) {lib.glist(enc)}",
                            "Open Scope Z_scope.\n")
-        print("history ((-1, _) = subscribe, (j, i) = deliver i to subscription j):", h)
+        print("history ((-100, _) = apply the operator value to a new source, (-1 - k, _) = subscribe to application k, "
+              "(j, i) = deliver i to subscription j):", h)
         print("implementation heard (per delivery: subscriber, value, #heard, heard...):", enc)
         print("model agrees:", "yes" if "= true" in out else "no" if "= false" in out else
               "not evaluated (the Coq build is stale; run the check first)")
-        pair = resub_failure(enc)
+        pair = resub_failure(enc, h)
         print("subscriptions fed the same inputs that heard different things (j1, j2, delivery):", pair)
         same = pair is None
         if not same:
